@@ -2,7 +2,7 @@
 //! histories, the sequential driver and the C01 / C03 oracles.
 
 use std::{
-    collections::{HashMap, HashSet},
+    collections::{BTreeMap, BTreeSet, HashMap, HashSet},
     sync::{Arc, atomic::Ordering},
     time::Duration,
 };
@@ -646,6 +646,20 @@ pub struct RunOutcome {
     pub oracle: Oracle,
     pub shutdown_ok: bool,
     pub steps_done: usize,
+    /// per history step: the queries that executors read (executor-level reads
+    /// are where the known finding C01-F1 arises)
+    pub exec_read_targets: BTreeMap<usize, BTreeSet<NodeId>>,
+}
+
+/// Counterfactual mode of the C01-F1 classifier: before the query steps at
+/// index >= `from_step` the *user* repairs the transitive firewall callees of
+/// already computed queries - of all of them (`only == None`) or only of
+/// those listed for that step (the queries executors read at that step in
+/// the run under examination).
+#[derive(Clone, Debug, Default)]
+pub struct Prerepair {
+    pub from_step: usize,
+    pub only: Option<BTreeMap<usize, BTreeSet<NodeId>>>,
 }
 
 fn set_result_expected(prev: Option<i64>, new: i64) -> SetInputResult {
@@ -664,8 +678,9 @@ pub async fn run_sequential<B: Backend>(
     history: &[Step],
     yield_freq: YieldFrequency,
     exec_yields: u32,
-    prerepair_from_step: Option<usize>,
+    prerepair: Option<&Prerepair>,
 ) -> RunOutcome {
+    let mut exec_read_targets: BTreeMap<usize, BTreeSet<NodeId>> = BTreeMap::new();
     let ctx = ExecCtx::new(prog.clone());
     ctx.exec_yields.store(exec_yields, Ordering::Relaxed);
     let mut or = Oracle::new(prog.clone());
@@ -678,7 +693,7 @@ pub async fn run_sequential<B: Backend>(
 
     for (step_index, step) in history.iter().enumerate() {
         or.cur_step = step_index;
-        let prerepair_tfc = prerepair_from_step.is_some_and(|f| step_index >= f);
+        let prerepair_tfc = prerepair.is_some_and(|p| step_index >= p.from_step);
         match step {
             Step::Session { .. } => first_query_in_epoch = true,
             _ => {}
@@ -774,7 +789,12 @@ pub async fn run_sequential<B: Backend>(
                     // user repair the transitive firewall callees of every node
                     // computed so far before anything is queried.
                     let t = engine.clone().tracked().await;
-                    let known: Vec<NodeId> = or.last_run.keys().copied().collect();
+                    let mut known: Vec<NodeId> = or.last_run.keys().copied().collect();
+                    if let Some(only) = prerepair.and_then(|p| p.only.as_ref()) {
+                        let empty = BTreeSet::new();
+                        let set = only.get(&step_index).unwrap_or(&empty);
+                        known.retain(|n| set.contains(n));
+                    }
                     for n in topo_order(&prog, &known) {
                         match n.kind {
                             Kind::N => t.repair_transitive_firewall_callees(&N(n.idx)).await,
@@ -842,6 +862,13 @@ pub async fn run_sequential<B: Backend>(
                 if std::env::var("QV_DEBUG3").is_ok() {
                     eprintln!("DEBUG3 epoch {} roots={:?} recs={:?}", or.epoch, roots, recs.iter().map(|x| (x.node, x.reads.clone(), x.result.clone())).collect::<Vec<_>>());
                 }
+                for x in &recs {
+                    for (d, _) in &x.reads {
+                        if matches!(d.kind, Kind::N | Kind::F | Kind::P) {
+                            exec_read_targets.entry(step_index).or_default().insert(*d);
+                        }
+                    }
+                }
                 if just_restarted {
                     if recs.is_empty() {
                         or.stats.served_from_store_after_restart += roots.len() as u64;
@@ -873,7 +900,7 @@ pub async fn run_sequential<B: Backend>(
     }
     let ok = shutdown(engine).await;
     shutdown_ok &= ok;
-    RunOutcome { oracle: or, shutdown_ok, steps_done }
+    RunOutcome { oracle: or, shutdown_ok, steps_done, exec_read_targets }
 }
 
 pub fn violation_from(prop: &str, kind: &str, detail: &Json, case: &Json) -> Violation {
